@@ -666,6 +666,48 @@ def oracle_filepath(cmd, line):
             return "posix-path-not-absolute"
     return None
 
+def sample_icu_laws(ctx):
+    """The ICU laws that C07_host takes as premises (H_ascii, H_keep), sampled against the real ICU
+    through the model's oracle: a test of the assumptions, reported as such."""
+    import itertools, model as _model
+    r = random.Random("%d/icu-laws" % ctx.seed)
+    mdl = _model.ensure_model()
+    ASCII_DOMAIN = [c for c in range(0x21, 0x7f) if chr(c) not in "#/:<>?@[\\]^|%"]
+    FORBIDDEN = [c for c in list(range(0, 0x21)) + [0x23, 0x2f, 0x3a, 0x3c, 0x3e, 0x3f, 0x40, 0x5b, 0x5c, 0x5d, 0x5e, 0x7c, 0x7f]]
+    def has_xn(s):
+        return any(l[:4].lower() == "xn--" for l in s.split("."))
+    cases_a = []
+    k = scale(ctx, 2, 3)
+    for t in itertools.product(ASCII_DOMAIN, repeat=k) if k == 2 else []:
+        cases_a.append("".join(map(chr, t)))
+    for _ in range(scale(ctx, 6000, 200000)):
+        cases_a.append("".join(chr(r.choice(ASCII_DOMAIN)) for _ in range(r.randint(1, 12))))
+    cases_a = [s for s in cases_a if not has_xn(s)]
+    lines = ["idna %s" % tok(s) for s in cases_a]
+    cases_k = []
+    for _ in range(scale(ctx, 4000, 100000)):
+        pre = "".join(chr(r.choice(ASCII_DOMAIN)) for _ in range(r.randint(0, 5)))
+        c = r.choice(FORBIDDEN)
+        post = "".join(chr(r.choice(ASCII_DOMAIN + [0xe9, 0x3002, 0x338, 0xad, 0x200d, 0x5d0])) for _ in range(r.randint(0, 5)))
+        if c in (0x3c, 0x3e) and post and ord(post[0]) >= 128:
+            continue
+        cases_k.append((pre, c, post))
+    lines += ["idna %s" % tok([ord(x) for x in pre] + [c] + [ord(x) for x in post]) for pre, c, post in cases_k]
+    out = corr.run_cases(mdl, [Case(lines[i:i + 5000]) for i in range(0, len(lines), 5000)], 900)
+    flat = [l for o in out for l in (o or [])]
+    bad = []
+    for s, l in zip(cases_a, flat):
+        exp = "idna ok " + (s.lower().encode().hex().upper() or "-")
+        if l != exp:
+            bad.append(("H_ascii", s, l))
+    for (pre, c, post), l in zip(cases_k, flat[len(cases_a):]):
+        if l.startswith("idna ok"):
+            h = l.split(" ")[2]
+            res = bytes.fromhex(h) if h != "-" else b""
+            if bytes([c]) not in res:
+                bad.append(("H_keep", repr((pre, c, post)), l))
+    return len(cases_a), len(cases_k), bad
+
 STREAMS = {
     "parse": (stream_parse, oracle_state),
     "parse_exhaustive": (stream_parse_exhaustive, oracle_state),
@@ -707,6 +749,14 @@ def run(ctx, P):
         if cases:
             c = cases[len(cases) // 2]
             samples.append({"stream": name, "history": [corr.pretty(l) for l in c.lines[:6]]})
+    if ctx.pid == "C07":
+        na, nk, bad = sample_icu_laws(ctx)
+        res["coverage"]["icu_law_samples"] = {"H_ascii": na, "H_keep": nk, "counterexamples": [list(b) for b in bad[:5]],
+                                              "note": "the two ICU laws are premises of the C07 theorems; they are tested here against ICU 72.1, not proved"}
+        for law, inp, got in bad[:3]:
+            rp = vlib.write_replay(ctx.pid, "icu_law_%s" % law, {"kind": "assumed-ICU-law-fails", "law": law, "input": inp, "icu_answer": got,
+                                   "meaning": "a premise of C07_host does not hold of the installed ICU; the theorem no longer speaks about this library build"})
+            res["violations"].append((rp, "ICU law %s fails on %s" % (law, inp[:60]), False))
     res["coverage"]["evaluations"] = total_cmds
     res["coverage"]["distinct_nontrivial"] = len(distinct)
     res["coverage"]["rule"] = ("commands are generated from one PRNG seeded by VERIF_SEED (structured URL grammar, boundary values, "
